@@ -99,6 +99,8 @@ def layer(draw, cls, scan, pool, kinds, max_width, names=NAMES, zmax=1,
     gen = {"name": name, "dom": scan[off:off + nd], "cod": cod}
     if data:
         gen["data"] = draw(payloads())
+    if cls in WORD_CLASSES and draw(st.integers(0, 5)) == 0:
+        gen["word"] = True   # a grammar Word instead of a plain Box
     if "dagger" in kinds and draw(st.integers(0, 3)) == 0:
         gen = dict(gen, dom=gen["cod"], cod=gen["dom"])
         pool.append(gen)
@@ -132,6 +134,7 @@ KINDS = {
     "tensor": ("box", "dagger", "swap", "spider"),
 }
 CLASS_NAMES = {"tensor": [2, 3]}
+WORD_CLASSES = {"monoidal", "rigid", "biclosed"}
 LAYER_FN = {}  # cls -> composite strategy fn(scan, max_width, **kw)
 
 
